@@ -9,6 +9,7 @@ partial def loop (h : IO.FS.Stream) (out : IO.FS.Stream) : IO Unit := do
   match l.splitOn " " with
   | id :: rest =>
     out.putStrLn (id ++ " " ++ runLine allTables (" ".intercalate rest))
+    out.flush
   | [] => out.putStrLn "bad-op"
   loop h out
 
